@@ -56,7 +56,8 @@ class Fixture:
             self.ws.close()
             self.ws2.close()
         self.values = {
-            "None": None, "True": True, "False": False, "Int": 3, "Float": 2.5, "Str": "abc", "Choice": "Option A",
+            "None": None, "True": True, "False": False, "Int": 3, "Float": 2.5, "Str": "abc", "EmptyStr": "",
+            "Choice": "Option A",
             "SidData": str(self.data.uid), "SidOther": str(self.other.uid), "SidObj": str(self.obj.uid),
             "SidBogus": str(self.bogus),
             "UidData": self.data.uid, "UidOther": self.other.uid, "UidObj": self.obj.uid,
@@ -67,6 +68,8 @@ class Fixture:
             "EntInt": self.intdata, "EntCurve": self.curve,
             "Pg3D": self.pg3d, "PgMulti": self.pgmulti, "PgOther": self.pgother,
             "ListStr": ["a", "b"], "ListInt": [42], "Ws": self.ws,
+            "LUidObj": [self.obj.uid], "LEntObj": [self.obj], "LUidObjBogus": [self.obj.uid, self.bogus],
+            "LEntForeign": [self.foreignobj],
         }
         self._by_id = {id(v): k for k, v in self.values.items()
                        if not isinstance(v, (str, int, float, bool, type(None), uuid.UUID, list))}
@@ -85,7 +88,19 @@ class Fixture:
             for tok, ent in self.values.items():
                 if tok.startswith(("Ent", "Pg")) and getattr(ent, "uid", None) == val:
                     return tok
+        if isinstance(val, list):
+            items = [self.stored_token(item) for item in val]
+            match = [tok for tok, lst in self.values.items()
+                     if isinstance(lst, list) and [self.stored_token(i) for i in lst] == items]
+            own = [tok for tok in match if [self.token(i) for i in self.values[tok]] == items]
+            return (own or match or [f"?list:{items}"])[0]
         return self.token(val)
+
+    def _list_token(self, items, val):
+        for tok, lst in self.values.items():
+            if isinstance(lst, list) and [self.token(i) for i in lst] == items:
+                return tok
+        return f"?list:{items}"
 
     def token(self, val):
         """Abstract a stored Python value back to the token of the specification."""
@@ -100,7 +115,7 @@ class Fixture:
         if isinstance(val, (str, uuid.UUID)):
             return self._by_eq.get((type(val).__name__, str(val)), f"?{type(val).__name__}:{val}")
         if isinstance(val, list):
-            return "ListStr" if val == ["a", "b"] else "ListInt" if val == [42] else f"?list:{val}"
+            return self._list_token([self.token(item) for item in val], val)
         return self._by_id.get(id(val), f"?{type(val).__name__}")
 
 
@@ -147,6 +162,10 @@ def classic_form(fix, kind):
         return templates.data_parameter(parent="obj", value=fix.pg3d.uid, data_group_type="3D vector")
     if kind == "datavalue":
         return templates.data_value_parameter(parent="obj", value=2.5)
+    if kind == "gdata":          # the parent is a group selector: members are the data of the objects inside it
+        return templates.data_parameter(parent="grp", value=fix.data.uid)
+    if kind == "objectmulti":
+        return templates.object_parameter(value=[fix.obj.uid], multi_select=True)
     raise ValueError(kind)
 
 
@@ -170,6 +189,8 @@ def classic_ui_json(fix, cfg):
         else:
             ui["dep"] = {"label": "dep", "value": 2.5, "optional": True, "enabled": cfg["dstate"]}
     ui["obj"] = templates.object_parameter(value=fix.obj.uid)
+    if cfg["kind"] == "gdata":
+        ui["grp"] = templates.group_parameter(value=fix.group.uid)
     form = classic_form(fix, cfg["kind"])
     if cfg["group"]:
         form["group"] = "g"
